@@ -244,6 +244,7 @@ def do_model(model):
         kw = {'v1': True}
         if model.get('key_case'):
             kw['v1_key_case'] = model['key_case']
+        kw.update(model.get('load_meta') or {})
         LoadMeta(**kw).bind_to(root)
         DumpMeta(key_transform=model.get('dump') or 'NONE').bind_to(root)
         res['keys'] = field_keys(model)
